@@ -91,7 +91,7 @@ def rehash (keyOf : Nat â†’ Nat) (t : Table) (n : Nat) (evs : List Ev) : Table Ã
   ({ t with slots := s }, evs)
 
 inductive Status where
-  | success | exists_ | notFound | noMem
+  | success | exists_ | notFound | noMem | badArg
 deriving Repr, DecidableEq
 
 /-- `zix_hash_insert_at(position, record)`.  `allocOk` = the new table (if one is needed) can be allocated. -/
@@ -145,6 +145,14 @@ def erase (keyOf : Nat â†’ Nat) (t : Table) (i : Nat) (allocOk : Bool) : Table Ã
       (t2, .success, removed, evs)
     else (t1, .noMem, removed, [])
   else (t1, .success, removed, [])
+
+/-- `zix_hash_erase(i)` for ANY iterator value `i` (a live slot, a tombstone, an empty slot, the end
+iterator `n`, or anything beyond): positions that hold no record are refused with BAD_ARG and
+nothing is touched. -/
+def eraseAt (keyOf : Nat â†’ Nat) (t : Table) (i : Nat) (allocOk : Bool) : Table Ã— Status Ã— Option Nat Ã— List Ev :=
+  match recordAt t i with
+  | none => (t, .badArg, none, [])
+  | some _ => erase keyOf t i allocOk
 
 /-- `zix_hash_remove(key)` -/
 def remove (keyOf : Nat â†’ Nat) (t : Table) (key code : Nat) (allocOk : Bool) : Table Ã— Status Ã— Option Nat Ã— List Ev :=
